@@ -1,6 +1,7 @@
 package main
 
 import (
+	"github.com/advancedclimatesystems/gonnx/onnx"
 	"errors"
 	"fmt"
 	"strings"
@@ -60,7 +61,7 @@ func genC15(dir, tier string, seed int64) {
 	hdr := "From Coq Require Import List String ZArith.\nFrom V Require Import DType Gate CheckC15.\nFrom Gen Require Import OpTable.\nImport ListNotations.\nOpen Scope string_scope.\nDefinition cases : list gcase := ["
 	ftr := "].\nDefinition verdicts := Eval vm_compute in map (verdict optable13) cases.\nPrint verdicts.\nDefinition kinds := Eval vm_compute in map (kind optable13) cases.\nPrint kinds."
 	cw := newCaseWriter(dir, "C15_gate", hdr, ftr,
-		"exhaustive: every registered operator x every input count 0..max+2 x (an accepted dtype everywhere; each of the 14 dtypes at each position, one at a time; nil at each optional position; for 2-input operators all 14x14 dtype pairs; for the variadic operator counts 0..5)", true, 1500)
+		"exhaustive: every registered operator x every input count 0..max+2 x (an accepted dtype everywhere; each of the 14 dtypes at each position, one at a time; nil at each optional position, alone, together with nil at a later one, and together with each of the 14 dtypes at each later position; for 2-input operators all 14x14 dtype pairs; for the variadic operator counts 0..5)", true, 1500)
 	emit := func(name string, ins []int) { // ins: dtype index or -1 for nil
 		ts := make([]tensor.Tensor, len(ins))
 		var parts []string
@@ -110,6 +111,13 @@ func genC15(dir, tier string, seed int64) {
 						c2 := append([]int{}, c...)
 						c2[q] = -1
 						emit(in.name, c2)
+						// nil at this position and every dtype at each later one: the type check must
+						// not stop at the first absent input
+						for d := range dtypes {
+							c3 := append([]int{}, c...)
+							c3[q] = d
+							emit(in.name, c3)
+						}
 					}
 				}
 			}
@@ -181,4 +189,94 @@ func genC15(dir, tier string, seed int64) {
 		}
 	}
 	meta.GoOnly = append(meta.GoOnly, g)
+
+	// behavioural independence: what an instance computes must not depend on any other lookup of
+	// its name -- neither one made (and initialised with other attributes, and applied) BEFORE it
+	// was looked up, nor one made in between its own lookup and its Init
+	ind := goOnlyResult{Stream: "C15_instance_independence", Rule: "for every operator with valid fixtures and every ordered pair (polluter fixture f', fixture f) of that operator (attribute variants: explicit activations, other kernel/axis attributes ...): result of a fresh instance on f  ==  result of an instance looked up BEFORE another instance was Init-ed with f' and applied  ==  result of an instance looked up AFTER that", Violations: []string{}}
+	fxs := fixtures()
+	for _, in := range t {
+		fs := append([]fixture{}, fxs[in.name]...)
+		fs = append(fs, pollutingVariants(in.name)...)
+		for _, f := range fxs[in.name] {
+			base := observeWithOutputs(in.name, f.attrs, f.outputs, f.inputs())
+			for _, fp := range fs {
+				ind.N++
+				early, err := opset13.GetOperator(in.name)
+				if err != nil {
+					continue
+				}
+				observeWithOutputs(in.name, fp.attrs, fp.outputs, fp.inputs()) // another node of the same type runs
+				late, _ := opset13.GetOperator(in.name)
+				for which, o := range map[string]ops.Operator{"before": early, "after": late} {
+					got := observeOn(o, f.attrs, f.outputs, f.inputs())
+					if got != base && len(ind.Violations) < 12 {
+						ind.Violations = append(ind.Violations, fmt.Sprintf("%s: an instance looked up %s another %s node (attributes %v) was initialised and applied computes %.200s, a fresh one %.200s", in.name, which, in.name, attrNames(fp.attrs), got, base))
+					}
+				}
+			}
+		}
+	}
+	meta.GoOnly = append(meta.GoOnly, ind)
+}
+
+func attrNames(as []*onnx.AttributeProto) []string {
+	var n []string
+	for _, a := range as {
+		n = append(n, a.Name)
+	}
+	return n
+}
+
+// extra attribute variants used only as "the other node of the same type"
+func pollutingVariants(op string) []fixture {
+	fx := fixtures()[op]
+	if len(fx) == 0 {
+		return nil
+	}
+	strs := func(n string, v ...string) *onnx.AttributeProto {
+		var b [][]byte
+		for _, s := range v {
+			b = append(b, []byte(s))
+		}
+		return &onnx.AttributeProto{Name: n, Strings: b, Type: onnx.AttributeProto_STRINGS}
+	}
+	with := func(a ...*onnx.AttributeProto) fixture {
+		f := fx[0]
+		f.attrs = append(append([]*onnx.AttributeProto{}, fx[0].attrs...), a...)
+		return f
+	}
+	switch op {
+	case "RNN":
+		return []fixture{with(strs("activations", "Relu")), with(strs("activations", "Sigmoid"))}
+	case "GRU":
+		return []fixture{with(strs("activations", "Relu", "Sigmoid")), with(strs("activations", "Tanh", "Relu")), with(aI("linear_before_reset", 1))}
+	case "LSTM":
+		return []fixture{with(strs("activations", "Relu", "Sigmoid", "Relu")), with(strs("activations", "Tanh", "Relu", "Sigmoid"))}
+	}
+	return nil
+}
+
+func observeOn(o ops.Operator, attrs []*onnx.AttributeProto, outputs []string, ins []tensor.Tensor) (obs string) {
+	defer func() {
+		if r := recover(); r != nil {
+			obs = "OPanic"
+		}
+	}()
+	if err := o.Init(&onnx.NodeProto{Attribute: attrs, Output: outputs}); err != nil {
+		return "(OErr " + ekind(err) + ")"
+	}
+	v, err := o.ValidateInputs(ins)
+	if err != nil {
+		return "(OErr " + ekind(err) + ")"
+	}
+	out, err := o.Apply(v)
+	if err != nil {
+		return "(OErr " + ekind(err) + ")"
+	}
+	parts := make([]string, len(out))
+	for i, t := range out {
+		parts[i] = tval(t)
+	}
+	return "(OOk [" + strings.Join(parts, ";") + "])"
 }
